@@ -1,6 +1,7 @@
 package interpreter
 
 import (
+	"math/big"
 	"slices"
 
 	"github.com/formancehq/numscript/internal/parser"
@@ -91,7 +92,27 @@ func (st *programState) runBalancesQuery() error {
 	// reset batch query
 	st.CurrentBalanceQuery = BalanceQuery{}
 
-	st.CachedBalances = balances
+	// Merge the fetched balances into the cache.
+	// The values are copied (the returned maps belong to the store, and cached balances are updated in place),
+	// and the balances we already know are kept
+	for accountName, queriedCurrencies := range filteredQuery {
+		cachedCurrenciesForAccount := defaultMapGet(st.CachedBalances, accountName, func() AccountBalance {
+			return AccountBalance{}
+		})
+
+		for _, queriedCurrency := range queriedCurrencies {
+			if _, isAlreadyCached := cachedCurrenciesForAccount[queriedCurrency]; isAlreadyCached {
+				continue
+			}
+
+			fetchedBalance := new(big.Int)
+			if balance, ok := balances[accountName][queriedCurrency]; ok && balance != nil {
+				fetchedBalance.Set(balance)
+			}
+			cachedCurrenciesForAccount[queriedCurrency] = fetchedBalance
+		}
+	}
+
 	return nil
 }
 
